@@ -624,6 +624,17 @@ FamDiamond == (201 :> T(<<I(1, 1)>>, <<O(25, 0), O(24, 99990000)>>, 150)) @@
               (205 :> T(<<I(201, 2)>>, <<O(24, 99940000)>>, 110)) @@
               (206 :> T(<<I(2, 1), I(202, 1)>>, <<O(74, 99890000)>>, 190))
 
+\* double spends whose contested output is not their first input: 203 (two inputs, cheaper than 201: refused by
+\* the real fee rule but kept in the reject cache) and 204 (three inputs, dearer) against 201 with its child 202;
+\* 205 child of 203; 206 single-input double spend of 203's first input.  Blocks that confirm 203 or 204 must
+\* clear 201 and 202 from the pool whichever input carries the conflict.
+FamConfl == (201 :> T(<<I(1, 1)>>, <<O(25, 0), O(24, 99950000)>>, 150)) @@
+            (202 :> T(<<I(201, 1)>>, <<O(24, 99980000)>>, 100)) @@
+            (203 :> T(<<I(2, 1), I(1, 1)>>, <<O(99, 99990000)>>, 200)) @@
+            (204 :> T(<<I(3, 1), I(4, 1), I(1, 1)>>, <<O(149, 99900000)>>, 250)) @@
+            (205 :> T(<<I(203, 1)>>, <<O(99, 99970000)>>, 100)) @@
+            (206 :> T(<<I(2, 1)>>, <<O(49, 99940000)>>, 100))
+
 \* an orphan chain 201-202-203 (any arrival order), a parent that never exists (204), a coinbase that matures
 \* one block later (205), an output index the parent does not have (206, next to a confirmed input)
 FamOrphan == (201 :> T(<<I(1, 1)>>, <<O(49, 99990000)>>, 100)) @@
